@@ -16,6 +16,22 @@ first counts the reads N of the unchanged run and then returns one result per po
 n = 1 .. N-1 (plus the unchanged run).  The rendered size the render was made for is
 pinned at the entry of _render_image (a dynamic size is fixed by _renderer at that point).
 
+Round 4 (b): (c) HISTORIES of an animated source: `ops` is a list of
+["seek", n] (image.seek) | ["pilseek", k] (the owner of the wrapped PIL image seeks it) |
+["iter", k] (an ImageIterator(repeat=1) yields k+1 frames — or runs to exhaustion if there are
+fewer — and is closed) | ["native"] (an iterm2 native-animation render: a PIL source without a
+readable file is re-encoded with save(save_all=True), which moves it) | ["render"]; `pre` is
+the frame the PIL image is on when the instance is made.  Every render is decoded and compared
+with the pixels of frame image.tell() (read just before the render) of a FRESH copy of the
+source; `fr` reports the history as executed, tell, the position of the shared PIL object and
+the index of the source frame the payload actually carries.  (d) the payload of every command
+as ONE base64 text: [length, characters from the first '=' to the end, is [A-Za-z0-9+/]*=*];
+it is decoded only if that shape is well-formed (length % 4 == 0, at most 2 padding
+characters, hence at the very end) and with validate=True.  (e) sources with
+`file_size` = N: the file is EXACTLY N bytes (PNG / APNG: an uncompressed tEXt chunk of
+filler), so that read-from-file and native-animation payloads sit just below / at / above a
+power of two.
+
 Everything reported is an integer, a bool, a short string or a list of those."""
 import implenv
 from implenv import tests
@@ -102,6 +118,12 @@ def build_source(src, idx):
         kw = dict(save_all=True, append_images=frames[1:], duration=100, loop=0)
         if fmt == "WEBP":
             kw["lossless"] = True
+        if fmt == "PNG":
+            from PIL.PngImagePlugin import PngInfo
+
+            info = PngInfo()
+            info.add_text("c03", "source")
+            kw["pnginfo"] = info
     elif fmt == "WEBP":
         kw["lossless"] = True
     elif fmt == "JPEG":
@@ -114,6 +136,21 @@ def build_source(src, idx):
         info.add_text("c03", "source")
         kw["pnginfo"] = info
     frames[0].save(path, fmt, **kw)
+    want = src.get("file_size")
+    if want:
+        # exactly `want` bytes: a second, uncompressed tEXt chunk (12 bytes of chunk framing,
+        # the keyword "fill", a NUL, then the filler)
+        assert fmt == "PNG", "file_size is implemented for PNG / APNG sources"
+        from PIL.PngImagePlugin import PngInfo
+
+        k = want - os.path.getsize(path) - 17
+        assert k >= 0, f"file_size {want} is below the size of the image itself"
+        info = PngInfo()
+        info.add_text("c03", "source")
+        info.add_text("fill", "x" * k)
+        kw["pnginfo"] = info
+        frames[0].save(path, fmt, **kw)
+        assert os.path.getsize(path) == want, (os.path.getsize(path), want)
     return path, (lambda: Image.open(path))
 
 
@@ -226,12 +263,30 @@ def parse_kitty(out, rw, mix):
     return items, trans, ok, fill_ok
 
 
+B64_TEXT = re.compile(r"[A-Za-z0-9+/]*=*")
+
+
+def b64_shape(text):
+    """[length, number of characters from the first '=' to the end, is [alphabet]*=*]"""
+    i = text.find("=")
+    return [len(text), len(text) - i if i >= 0 else 0, B64_TEXT.fullmatch(text) is not None]
+
+
+def b64_strict(text):
+    """The bytes of a WELL-FORMED base64 text: length a multiple of 4, only alphabet
+    characters, padding only at the very end (at most two characters); anything else raises."""
+    n, pad, alpha = b64_shape(text)
+    if not alpha or n % 4 or pad > 2:
+        raise ValueError("ill-formed base64 text")
+    return base64.b64decode(text, validate=True)
+
+
 def decode_kitty(trans):
     """Per transmission: decoded (and decompressed iff o=z) raw bytes or None."""
     raws = []
     for keys, parts in trans:
         try:
-            data = base64.b64decode("".join(parts), validate=True)
+            data = b64_strict("".join(parts))
             if keys.get("o") == "z":
                 data = zlib.decompress(data)
             elif "o" in keys:
@@ -285,13 +340,19 @@ def construct(cls, case, path, opener):
         kw = {"width": sz[0], "height": sz[1]}
     kind = case["source"]
     keep = None
+
+    def pre_seek(im):  # the PIL image may be on any frame when it is wrapped
+        if case.get("pre") and getattr(im, "is_animated", False):
+            im.seek(case["pre"] % im.n_frames)
+        return im
+
     if kind == "file":
         image = cls.from_file(path, **kw)
     elif kind == "pil_file":
-        keep = Image.open(path)
+        keep = pre_seek(Image.open(path))
         image = cls(keep, **kw)
     elif path is not None:  # a PIL image decoded from bytes: has a format, no file name
-        keep = Image.open(io.BytesIO(open(path, "rb").read()))
+        keep = pre_seek(Image.open(io.BytesIO(open(path, "rb").read())))
         image = cls(keep, **kw)
     else:  # a PIL image made in memory: no format, no file name
         keep = opener()
@@ -405,6 +466,7 @@ def run_unit(case):
         "raw_ok": len(raws) == 1 and raws[0] == data,
         "rawlen": [len(r) if r is not None else -1 for r in raws],
         "joined_eq": t.get_chunked() == out if size is None else True,
+        "b64": b64_shape("".join(trans[0][1])) if len(trans) == 1 else [0, 0, False],
     }
 
 
@@ -435,24 +497,13 @@ def run_render_case(case, idx, env, cls):
     tests.set_fg_bg_colors(bg=tuple(case.get("bg", (0, 0, 0))) if case.get("bg") is not False else None)
     path, opener = build_source(case["src"], idx)
     image, keep = construct(cls, case, path, opener)
-    res = {}
     if case["style"] == "iterm2":
         if case.get("jq") is not None:
             image.jpeg_quality = case["jq"]
         if case.get("rff") is not None:
             image.read_from_file = case["rff"]
-    seek = case.get("seek", 0)
-    animated = image.is_animated
-    if animated:
-        seek = seek % image.n_frames
-        image.seek(seek)
-    fresh = opener()
-    if getattr(fresh, "is_animated", False):
-        fresh.seek(seek)
-    res["mode"] = fresh.mode
-    res["mode_class"] = 0 if fresh.mode in OPAQUE else (1 if fresh.mode in ("P", "PA") else 2)
-    res["animated"] = bool(animated)
-    res["orig"] = list(image.original_size)
+    animated = bool(image.is_animated)
+    n_frames = image.n_frames if animated else 1
     readable = False
     if case["source"] == "file":
         readable = True
@@ -461,7 +512,83 @@ def run_render_case(case, idx, env, cls):
             readable = os.access(keep.filename, os.R_OK)
         except (AttributeError, OSError):
             readable = False
-    res["readable"] = bool(readable)
+    shared = keep if animated else None  # the PIL object shared by the instance, its renders and its owner
+    ctx = {"path": path, "opener": opener, "keep": keep, "animated": animated, "n_frames": n_frames,
+           "readable": bool(readable), "shared": shared, "init": image.tell()}
+    ops = case.get("ops")
+    if ops is None:  # a single render (of frame `seek` of an animated source)
+        ops = ([["seek", case.get("seek", 0)]] if animated else []) + [["render"]]
+    hist, renders = [], []
+    for i, op in enumerate(ops):
+        if op[0] == "render":
+            res = render_once(image, case, env, ctx)
+            res["fr"].update(hist=list(hist))
+            renders.append([i, res])
+            hist.append(["render"])
+        elif not animated:
+            continue  # a still image has one frame: nothing to move
+        elif op[0] == "seek":
+            image.seek(op[1] % n_frames)
+            hist.append(["seek", op[1] % n_frames])
+        elif op[0] == "pilseek":
+            if shared is not None:  # (a file-sourced instance shares no PIL object)
+                shared.seek(op[1] % n_frames)
+                hist.append(["foreign", op[1] % n_frames])
+        elif op[0] == "iter":
+            hist.append(run_iterator(image, case, op[1]))
+        elif op[0] == "native":
+            if case["style"] == "iterm2":
+                try:
+                    format(image, "1.1+A")
+                except Exception:  # noqa: BLE001 - only its effect on the PIL object matters here
+                    pass
+                if shared is not None:
+                    hist.append(["foreign", shared.tell()])
+        else:
+            raise ValueError(f"unknown op {op!r}")
+    if case.get("ops") is not None and not case.get("last_only"):
+        return {"renders": renders}
+    return renders[-1][1]
+
+
+def run_iterator(image, case, k):
+    """ImageIterator(image, repeat=1) yielding k+1 frames (0..k) and closed; exhausted if the
+    source has no more than k frames.  -> the history entry."""
+    from term_image.image import ImageIterator
+
+    alpha = case["alpha"]
+    if isinstance(alpha, list):
+        alpha = alpha[0]
+    it = ImageIterator(image, 1, f"1.1{alpha_spec(alpha)}")
+    done = 0
+    try:
+        for _ in range(k + 1):
+            next(it)
+            done += 1
+        entry = ["iter", done - 1]
+    except StopIteration:
+        entry = ["iterfull"]
+    finally:
+        it.close()
+    return entry
+
+
+def render_once(image, case, env, ctx):
+    path, opener, keep = ctx["path"], ctx["opener"], ctx["keep"]
+    animated, readable = ctx["animated"], ctx["readable"]
+    res = {}
+    tell = image.tell()  # the frame the IMAGE says is current
+    shared = ctx["shared"]
+    res["fr"] = {"pil": case["source"] != "file", "init": ctx["init"], "tell": tell, "sent": -1,
+                 "pilpos": shared.tell() if shared is not None else -1, "n_frames": ctx["n_frames"]}
+    fresh = opener()
+    if getattr(fresh, "is_animated", False):
+        fresh.seek(tell)
+    res["mode"] = fresh.mode
+    res["mode_class"] = 0 if fresh.mode in OPAQUE else (1 if fresh.mode in ("P", "PA") else 2)
+    res["animated"] = animated
+    res["orig"] = list(image.original_size)
+    res["readable"] = readable
     size_before = image.size
     pinned = []
     bound_render_image = image._render_image
@@ -493,14 +620,30 @@ def run_render_case(case, idx, env, cls):
     if res["raised"]:
         return res
     res["size_kept"] = image.size == size_before
+    res["out_len"] = len(out)
     rw, rh = res["rsize"]
     bg = tests.get_fg_bg_colors(hex=True)[1] or "#000000"
+
+    def which_frame(matches):
+        """the source frame whose pixels the payload carries: `tell` if it matches, else the
+        first other frame that does, else -1"""
+        if matches(fresh, tell):
+            return tell
+        for j in range(ctx["n_frames"]):
+            if j != tell:
+                try:
+                    if matches(opener(), j):
+                        return j
+                except Exception:  # noqa: BLE001
+                    pass
+        return -1
 
     if case["style"] == "kitty":
         items, trans, ok, fill_ok = parse_kitty(out, rw, case["mix"] if case.get("via") != "str" else False)
         raws = decode_kitty(trans)
         res.update(items=items, lex_ok=ok, fill_ok=fill_ok,
-                   rawlen=[len(r) if r is not None else -1 for r in raws])
+                   rawlen=[len(r) if r is not None else -1 for r in raws],
+                   b64=[b64_shape("".join(t[1])) for t in trans])
         # pixels at the transmitted resolution (s, sum of v), stitched in order
         pix = False
         try:
@@ -509,10 +652,15 @@ def run_render_case(case, idx, env, cls):
             vs = [int(t[0]["v"]) for t in trans]
             if len(ss) == 1 and len(ff) == 1 and all(r is not None for r in raws):
                 s, f = ss.pop(), ff.pop()
-                exp = expected_image(fresh, seek, alpha, (s, sum(vs)), bg)
                 want_mode = {24: "RGB", 32: "RGBA"}.get(f)
-                pix = exp.mode == want_mode and exp.tobytes() == b"".join(raws)
-                res["exp_mode_rgba"] = exp.mode == "RGBA"
+                got = b"".join(raws)
+
+                def matches(im, j):
+                    exp = expected_image(im, j, alpha, (s, sum(vs)), bg)
+                    return exp.mode == want_mode and exp.tobytes() == got
+
+                res["fr"]["sent"] = which_frame(matches)
+                pix = res["fr"]["sent"] == tell
         except Exception as e:  # noqa: BLE001
             res["pix_error"] = repr(e)[:200]
         res["pix"] = bool(pix)
@@ -525,13 +673,13 @@ def run_render_case(case, idx, env, cls):
     recs, strips = [], []
     untouched = False
     for hdr, pay in oscs:
-        rec = {"hdr": hdr}
+        rec = {"hdr": hdr, "b64": b64_shape(pay)}
         kv = dict(p.split("=", 1) for p in hdr.split(";") if "=" in p)
         rec["keys"] = [int(kv.get(k, -1)) if re.fullmatch(r"\d+", kv.get(k, "")) else -1
                        for k in ("size", "width", "height", "preserveAspectRatio", "inline", "doNotMoveCursor")]
         rec["nkeys"] = len(kv)
         try:
-            data = base64.b64decode(pay, validate=True)
+            data = b64_strict(pay)
             rec["declen"] = len(data)
             rec["b64len"] = len(pay)
         except Exception:
@@ -544,6 +692,8 @@ def run_render_case(case, idx, env, cls):
             im = Image.open(io.BytesIO(data))
             im.load()
             rec["kind"] = {"PNG": 0, "JPEG": 1}.get(im.format, 2)
+            if rec["kind"] == 0 and getattr(im, "n_frames", 1) > 1:
+                rec["kind"] = 2  # an animated PNG is "another (animated) image format", not a still PNG
             rec["w"], rec["h"] = im.size
             rec["rgba"] = im.mode == "RGBA"
             rec["frames"] = getattr(im, "n_frames", 1)
@@ -559,25 +709,32 @@ def run_render_case(case, idx, env, cls):
     try:
         if untouched:
             pix = True
+            res["fr"]["sent"] = tell  # the whole source file: no single frame
         elif strips and len(strips) == len(oscs):
             w = strips[0].size[0]
             hs = [s.size[1] for s in strips]
             if all(s.size[0] == w for s in strips) and all(r["kind"] in (0, 1) for r in recs):
-                exp = expected_image(fresh, seek, alpha, (w, sum(hs)), bg)
-                res["exp_mode_rgba"] = exp.mode == "RGBA"
-                if all(r["kind"] == 0 for r in recs):
+                lossless = all(r["kind"] == 0 for r in recs)
+
+                def matches(im, j):
+                    exp = expected_image(im, j, alpha, (w, sum(hs)), bg)
+                    if not lossless:  # JPEG: lossy — format, mode and size only
+                        return all(s_.mode == "RGB" for s_ in strips) and exp.mode == "RGB"
                     y, good = 0, True
                     for s_ in strips:
                         good = good and s_.mode == exp.mode and s_.tobytes() == exp.crop((0, y, w, y + s_.size[1])).tobytes()
                         y += s_.size[1]
-                    pix = good
-                else:  # JPEG: lossy — format, mode and size only
-                    pix = all(s_.mode == "RGB" for s_ in strips) and exp.mode == "RGB"
+                    return good
+
+                res["fr"]["sent"] = which_frame(matches)
+                pix = res["fr"]["sent"] == tell
             elif len(recs) == 1 and recs[0]["kind"] == 2:
                 # native animation re-encoded from a PIL image: same format / frame count / size
                 pix = (strips[0].format == fresh.format and recs[0]["frames"] == getattr(fresh, "n_frames", 1)
                        and strips[0].size == fresh.size)
                 res["native_reencoded"] = True
+                if pix:
+                    res["fr"]["sent"] = tell  # the whole animation: no single frame
     except Exception as e:  # noqa: BLE001
         res["pix_error"] = repr(e)[:200]
     res["pix"] = bool(pix)
